@@ -357,6 +357,8 @@ class Vector():
 		# Python Date interceptors
 		if target_type is date:
 			def caster(x):
+				if isinstance(x, datetime):
+					return x.date()  # a datetime is not of kind date: keep the date part
 				if isinstance(x, date):
 					return x
 				return date.fromisoformat(x)
